@@ -37,7 +37,7 @@ var cons = []gen.Con{
 	{Name: "E1s", Arity: 0}, {Name: "E1s2", Arity: 0}, {Name: "E2", Arity: 0}, {Name: "EIP", Arity: 0}, {Name: "HP", Arity: 0}, {Name: "RT", Arity: 0}, {Name: "CAR", Arity: 0}, {Name: "UND", Arity: 0},
 	{Name: "IE", Arity: 1}, {Name: "HBc", Arity: 1}, {Name: "HB1", Arity: 1}, {Name: "HBip", Arity: 1}, {Name: "HBe", Arity: 1},
 	{Name: "HBrt", Arity: 1}, {Name: "HB2", Arity: 1}, {Name: "HB2r", Arity: 1}, {Name: "HBbad", Arity: 1},
-	{Name: "HBhp", Arity: 1}, {Name: "HBhe", Arity: 1},
+	{Name: "HBhp", Arity: 1}, {Name: "HBhe", Arity: 1}, {Name: "HBcip", Arity: 1}, {Name: "HBipc", Arity: 1}, {Name: "HB3", Arity: 1},
 	{Name: "PG", Arity: 2}, {Name: "IE2", Arity: 2}, {Name: "HBc2", Arity: 2}, {Name: "HBrt2", Arity: 2}, {Name: "HBh", Arity: 2}, {Name: "HBx", Arity: 2}, {Name: "LIST2", Arity: 2},
 }
 
@@ -86,6 +86,14 @@ func render(t *gen.Tree) string {
 		return "(handler-bind ([c2 " + hTwo + "] [condition " + hList + "]) " + k(0) + ")"
 	case "HB2r":
 		return "(handler-bind ([condition " + hList + "] [c2 " + hTwo + "]) " + k(0) + ")"
+	case "HBcip":
+		// the catch-all FIRST, the explicit internal-panic binding after it: a host panic skips the former and must
+		// still reach the latter
+		return "(handler-bind ([condition " + hList + "] [internal-panic " + hTwo + "]) " + k(0) + ")"
+	case "HBipc":
+		return "(handler-bind ([internal-panic " + hTwo + "] [condition " + hList + "]) " + k(0) + ")"
+	case "HB3":
+		return "(handler-bind ([c2 " + hTwo + "] [condition " + hList + "] [error " + hRethrow + "] [internal-panic " + hTwo + "]) " + k(0) + ")"
 	case "HBhp":
 		// the handler is a HOST builtin that panics when it is called
 		return "(handler-bind ([condition host-panic-handler]) " + k(0) + ")"
@@ -224,7 +232,7 @@ func run(r *core.Run) {
 	total := g.Total(size)
 	r.Bound("max_nodes", size)
 	r.Bound("terms", total)
-	r.Rule("every term of the condition grammar (13 leaves: value, marker, (error 'c1 ..) with plain / unquoted-symbol / unquoted-list data / a lone string containing percent signs / that string and a second datum, (error 'c2), a lisp error NAMED internal-panic, a host panic, rethrow outside a handler, a builtin type error, an unbound symbol; 9 unary: ignore-errors and handler-bind with specifier condition / c1 / internal-panic / error / rethrowing handler / two bindings in both orders / a non-function handler; 7 binary: progn, 2-form ignore-errors, 2-form handler-bind bodies (catch-all and rethrowing), handler whose BODY is a term, handler EXPRESSION that evaluates a term, list) up to the node bound. Non-trivial = an error or host panic is raised somewhere in the term; distinct by source text")
+	r.Rule("every term of the condition grammar (13 leaves: value, marker, (error 'c1 ..) with plain / unquoted-symbol / unquoted-list data / a lone string containing percent signs / that string and a second datum, (error 'c2), a lisp error NAMED internal-panic, a host panic, rethrow outside a handler, a builtin type error, an unbound symbol; 12 unary: ignore-errors and handler-bind with the catch-all before / after an explicit internal-panic binding, four bindings, and specifier condition / c1 / internal-panic / error / rethrowing handler / two bindings in both orders / a non-function handler; 7 binary: progn, 2-form ignore-errors, 2-form handler-bind bodies (catch-all and rethrowing), handler whose BODY is a term, handler EXPRESSION that evaluates a term, list) up to the node bound. Non-trivial = an error or host panic is raised somewhere in the term; distinct by source text")
 	r.Assume("function values print as #<fun>; error messages are not compared, condition names are")
 	core.ParallelRange(r, total, nil, func(_ struct{}, i int64) {
 		t := g.At(size, i)
